@@ -25,8 +25,8 @@ ASSUMPTIONS = [
     "tolerance 1e-9 relative to cond(S)*(|P| + |P|^2 |H|^2 |S^-1|)",
 ]
 
-N = {"quick": {"direct": 48, "runtime": 8, "transform": 8},
-     "thorough": {"direct": 1400, "runtime": 200, "transform": 200}}
+N = {"quick": {"direct": 48, "runtime": 8, "transform": 8, "tiny": 8},
+     "thorough": {"direct": 1400, "runtime": 200, "transform": 200, "tiny": 200}}
 N_POINTS = {"quick": 4, "thorough": 8}
 
 
@@ -48,7 +48,8 @@ def floors(tier):
                          "multi_reading_updates": n["direct"],
                          "exact_prediction_readings": n["direct"] // 2,
                          "calls_via_runtime": n["runtime"] * 2,
-                         "calls_via_transform": n["transform"] * 2}}
+                         "calls_via_transform": n["transform"] * 2,
+                         "tiny_magnitude_updates": n["tiny"] * 4}}
 
 
 def setup_worker(ctx):
@@ -81,6 +82,8 @@ def run_unit(unit, ctx):
         cse = rng.random() < 0.5
         if kind == "direct":
             _direct(R, rng, defn, b, cse, ctx)
+        elif kind == "tiny":
+            _tiny(R, rng, ctx)
         elif kind == "runtime":
             _runtime(R, rng, defn, b, cse)
         else:
@@ -146,6 +149,38 @@ def _direct(R, rng, defn, b, cse, ctx):
                                   "sensor": sname, "reading": dict(zip(readings, z.reshape(-1).tolist())),
                                   "k": k, "prior": P.tolist(), "state_out": monitors.vec_dict(res.state),
                                   "posterior": res.covariance.data.tolist()})
+
+
+def _tiny(R, rng, ctx):
+    """Small but valid magnitudes (variances and noises ~1e-10) and several updates of the same sensor on
+    one filter object; the contract is judged relative to the magnitude of the problem, not to 1."""
+    defn = gen.contractive_program(rng, n_state=(1, 3), n_control=(0, 1), n_calib=(0, 1), n_sensor=(1, 2),
+                                   n_reading=(1, 2), depth=1, n_shared=(0, 1), allow_text=False)
+    sc = rng.choice([1e-9, 1e-10, 1e-11])
+    defn["sensor_noises"] = {s_: {r: v * sc for r, v in rd.items()} for s_, rd in defn["sensor_noises"].items()}
+    b = build.Built(defn)
+    ekf = b.py_ekf(common_subexpression_elimination=False, innovation_filtering=None)
+    ectx = getattr(ekf, "_vf_ctx", None)
+    if ectx is not None:
+        ectx.floor = sc
+    names = sorted(defn["state"])
+    R.stats.inc("tiny_magnitude_filters")
+    for rep in range(6):
+        pt = gen.point(rng, defn, scale=1.0)
+        # the covariance grows from one update to the next (as it does between updates of a running filter)
+        P = gen.spd(rng, len(names), "rand") * sc * (1 + 3 * rep)
+        st = ekf.State(**{s: pt[s] for s in defn["state"]})
+        cov = monitors.cov_from_matrix(ekf.Covariance, P, names)
+        for sname in defn["sensors"]:
+            readings = [str(r) for r in ekf.sensor_models[sname].readings]
+            hx = ekf.sensor_models[sname].model(st).data
+            z = {q: float(hx[j, 0]) + rng.gauss(0, 1) * sc ** 0.5 for j, q in enumerate(readings)}
+            try:
+                ekf.sensor_model(st, cov, sensor_key=sname, sensor_reading=ekf.make_reading(sname, **z))
+            except Exception as e:  # noqa: BLE001
+                R.add([K.V(K.exc_key("sensor_model", e), f"sensor_model raised at small magnitudes: {K.exc_text(e)}",
+                           defn=defn, scale=sc, traceback=K.tb_text(e))])
+            R.stats.inc("tiny_magnitude_updates")
 
 
 def _runtime(R, rng, defn, b, cse):
